@@ -2772,6 +2772,7 @@ void SoPlexBase<R>::clearLPReal()
    assert(_realLP != nullptr);
 
    _realLP->clear();
+   _isRealLPScaled = false;
    _hasBasis = false;
    _rationalLUSolver.clear();
 
@@ -8674,6 +8675,9 @@ bool SoPlexBase<R>::_readFileReal(const char* filename, NameSet* rowNames, NameS
 
    // read
    bool success = _realLP->readFile(filename, rowNames, colNames, intVars);
+
+   // the LP that was read replaces the previous one and is not scaled
+   _isRealLPScaled = false;
 
    // stop timing
    _statistics->readingTime->stop();
